@@ -308,7 +308,17 @@ func Check(p *Prop, tier string, workerExe string) int {
 			}
 		}
 		if okCount < 2 {
-			fmt.Printf("INFRA: failure %s did not reproduce from its replay file twice (%d/2); replay=%s\n%s\n", sig, okCount, rp, lastOut)
+			// never echo a VIOLATION line of the replay process (it may have found something else)
+			clean := strings.ReplaceAll(lastOut, "VIOLATION property=", "(replay) violation-line property=")
+			if strings.Contains(sig, "/fatal/out-of-memory") {
+				// a worker that died of memory exhaustion after many runs in one process
+				// but not in a fresh process: inconclusive, not a violation and not a
+				// harness fault (soundness rule: non-reproducing failures are never reported)
+				fmt.Printf("note: worker death %s did not reproduce in a fresh process (%d/2): inconclusive, not reported; replay=%s\n", sig, okCount, rp)
+				agg.Infra = append(agg.Infra, "non-reproducing worker death (memory pressure): "+sig)
+				continue
+			}
+			fmt.Printf("INFRA: failure %s did not reproduce from its replay file twice (%d/2); replay=%s\n%s\n", sig, okCount, rp, clean)
 			hardInfra = true
 			continue
 		}
